@@ -302,6 +302,8 @@ def evaluate__substring(self: XPathFunction, context: ta.ContextType = None) -> 
     item: str = self.get_argument(context, default='', cls=str)
     try:
         start = self.get_argument(context, index=1, required=True)
+        if math.isinf(start) and start < 0 and len(self) == 2:
+            return item  # every position is greater than or equal to -INF
         if math.isnan(start) or math.isinf(start):
             return ''
     except TypeError:
